@@ -19,6 +19,10 @@ def driver(tier):
 def run(v):
     cov = run_cmdline_property(v, families(v.tier), "MC_CmdLine_design.cfg", signature=cmdline_sig.signature,
                                driver=driver(v.tier))
+    # the acceptor against a second, declarative formulation of "sentence" (Sentence.tla), same family
+    dpath = os.path.join(WORK, f"C01-{v.tier}-defs.ndjson")
+    _, sm = cached_tlc_cases("C01-sentence", "MC_Sentence", "MC_Sentence.cfg", dpath, extra_files=[os.path.join(TLA, "Sentence.tla")])
+    cov["sentence_iff_ok_states"] = sm["distinct"]
     cov["rule"] = ("every line over each definition's alphabet up to its maxlen, enumerated by TLC; non-trivial = "
                    "non-empty line inside the property's quantifier; driver lines are generated sentences and their mutations")
     cov["exhaustive"] = True
